@@ -65,6 +65,8 @@ func (s *Server) cmdScan(msg *Message) (res resp.Value, err error) {
 			if uint64(count) > sw.limit {
 				// a LIMIT caps COUNT exactly as it does on the filtered path
 				count = int(sw.limit)
+				sw.hitLimit = true
+				sw.numberIters = args.cursor + sw.limit
 			}
 			sw.count = uint64(count)
 		} else {
